@@ -143,11 +143,12 @@ RotWitness(rs, sa, da, t0) ==
       ELSE IF ~r.started THEN (IF da <= sa THEN [r EXCEPT !.started = TRUE, !.cur = {}] ELSE r)
       ELSE LET cur == r.cur \cup {sa} IN
            IF da <= sa
-           THEN \* a rotation is complete; two identical rotations (against a scripted peer in single-station runs, where
-                \* "rotation" is not well defined: no new sender): sticky (the LAS stays valid)
+           THEN \* a rotation is complete; two rotations with no new sender seen: sticky (the LAS stays valid).  "Identical" is
+                \* not demanded sender by sender: the implementation verifies every pass of the second rotation against the
+                \* list built so far, so a repeated (retried) wrap-around pass or a member that left completes the
+                \* verification - the list is right at that point, which is what the clause protects
                 [r EXCEPT !.prev2 = r.prev, !.prev = cur, !.cur = {}, !.n = r.n + 1,
-                          !.ok = @ \/ (r.n + 1 >= 2 /\ (IF rs.cfg.mode = "single" THEN cur \subseteq (r.prev \cup {s})
-                                                                  ELSE (cur \cup {s}) = (r.prev \cup {s})))]
+                          !.ok = @ \/ (r.n + 1 >= 2 /\ cur \subseteq (r.prev \cup {s}))]
            ELSE [r EXCEPT !.cur = cur]]]
 
 OnTx(rs, e) ==
